@@ -141,4 +141,14 @@ statements, several return bits), every name defined once, no constants, interme
 def inGeneralClean (inputs : List String) (defs : List (String × BExp)) (rets : List String) : Bool :=
   inGeneral inputs defs rets && freshDefs inputs defs && keptThenRet rets defs
 
+/-- what the driver reports as `in_clean_general`: the class of `QV.C03.C03_general_partial` -/
+def inGeneralCleanClass (inputs : List String) (defs : List (String × BExp)) (rets : List String) : Bool :=
+  inGeneralClean inputs defs rets || inCleanFragment inputs defs rets
+
+/-- the static part of the class of `QV.C06.C06_general_partial`: `inGeneralClean` with exactly one requested
+return bit (the theorem also asks that the compiled circuit never uses the output qubit as a control,
+`retNeverControl`, which the driver evaluates on the model's gate list) -/
+def inGeneralXor (inputs : List String) (defs : List (String × BExp)) (rets : List String) : Bool :=
+  inGeneralClean inputs defs rets && rets.length == 1
+
 end QV.Compiler
